@@ -67,6 +67,8 @@ func c07ApplyPool(gp *engine.GenginePool, kind string) error {
 		return gp.UpdatePooledRulesIncremental(c07Text(c07Incr))
 	case "remove":
 		return gp.RemoveRules(c07Rm)
+	case "badfull": // a full update that does not compile: must fail and change nothing
+		return gp.UpdatePooledRules("rule \"a\" begin x = = end")
 	}
 	return nil
 }
@@ -217,7 +219,12 @@ func c07Scenario(cfg c07Cfg) *hx.Scenario {
 					bad("update-panic:"+k, fmt.Sprintf("update %d (%s) panicked: %v", i, k, st.upan[i]))
 					return
 				}
-				if st.uerr[i] != nil {
+				if k == "badfull" {
+					if st.uerr[i] == nil {
+						bad("update-accepted:"+k, fmt.Sprintf("update %d (a text that does not compile) was accepted", i))
+						return
+					}
+				} else if st.uerr[i] != nil {
 					bad("update-error:"+k, fmt.Sprintf("update %d (%s) failed: %v", i, k, st.uerr[i]))
 					return
 				}
@@ -331,7 +338,7 @@ func c07Configs(thorough bool) (cfgs []c07Cfg, bounds []int) {
 			}
 		}
 		// two updates in sequence against one executor
-		for _, ks := range [][]string{{"full", "incr"}, {"incr", "remove"}, {"remove", "full"}, {"remove", "incr"}} {
+		for _, ks := range [][]string{{"full", "incr"}, {"incr", "remove"}, {"remove", "full"}, {"remove", "incr"}, {"badfull", "incr"}, {"badfull", "remove"}} {
 			if !thorough && m != "sort" && m != "nsortmc" && m != "dag" {
 				continue
 			}
@@ -357,7 +364,7 @@ func init() {
 		BudgetQuick: 170 * time.Second,
 		BudgetThor:  30 * time.Minute,
 		Kind:        "schedules",
-		Rule: "pool (1,2), version-tagged rule sets whose versions differ in tags and membership; updater thread performing 1-2 updates from {full, incremental, removal} against 1-2 executions in each of 10 pool execution paths {sort, concurrent, mix, inverse-mix, N-sort-M-conc, N-conc-M-sort, N-conc-M-conc, DAG (2 layers), selected, configured-model}, every schedule with <=2 (thorough 3) deviations from the default scheduler (delay bounding: a preemption, or running another thread than the lowest-numbered enabled one when the running thread blocks or ends); an update triggered from inside a running rule; executions started after the update returned (both instances). " +
+		Rule: "pool (1,2), version-tagged rule sets whose versions differ in tags and membership; updater thread performing 1-2 updates from {full, incremental, removal, a full update that does not compile (must fail and change nothing) followed by an incremental update / removal} against 1-2 executions in each of 10 pool execution paths {sort, concurrent, mix, inverse-mix, N-sort-M-conc, N-conc-M-sort, N-conc-M-conc, DAG (2 layers), selected, configured-model}, every schedule with <=2 (thorough 3) deviations from the default scheduler (delay bounding: a preemption, or running another thread than the lowest-numbered enabled one when the running thread blocks or ends); an update triggered from inside a running rule; executions started after the update returned (both instances). " +
 			"Oracle (regular-register history check on the global call/return log): each execution's result map equals the reference result of exactly ONE snapshot, that snapshot is not older than the last update that returned before the execution was called and not newer than the last update called before it returned; no panic, no deadlock",
 		Assume: []string{"sequentially consistent memory", "nothing is demanded about the relative order of two overlapping executions"},
 		Run: func(c *hx.Ctx) {
